@@ -1565,6 +1565,12 @@ class Engine:
                 return [(st, V('bytes', py=None, extra={'len': _s.extra['u8'],
                                                         'has_nul': _s.extra['has_nul']}))]
             return [(st, V('func', py=('spec', enc)))]
+        if obj.k == 'list' and name == 'append' and self.contract.opts.get('untracked_lists'):
+            return [(st, V('func', py=('builtin', 'noop')))]
+        if obj.k == 'bytes' and name == 'startswith':
+            def sw(eng, args, kwargs, st, node):
+                return [(st, vbool(eng.fresh('startswith', z3.BoolSort())))]
+            return [(st, V('func', py=('spec', sw)))]
         if obj.k in ('int', 'real', 'bool', 'none', 'bytes', 'tuple', 'list') and name == 'encode':
             return [(st, Raised(self.make_exc('AttributeError', node=node)))]
         if obj.k == 'obj' and name in ('__name__', '__qualname__'):
@@ -1756,6 +1762,40 @@ class Engine:
             lo = cidx(sl.lower, None)
             hi = cidx(sl.upper, None)
             return [(st, V(obj.k, items=obj.items[lo:hi]))]
+        if obj.k == 'bytes' and sl.step is None:
+            L = self.bytes_len(obj)
+            res = [(st, [])]
+            for part in (sl.lower, sl.upper):
+                nxt = []
+                for st1, acc in res:
+                    if isinstance(acc, Raised):
+                        nxt.append((st1, acc))
+                    elif part is None:
+                        nxt.append((st1, acc + [None]))
+                    else:
+                        for st2, v in self.eval(part, st1):
+                            if isinstance(v, Raised):
+                                nxt.append((st2, v))
+                            elif v.k != 'int':
+                                nxt.append((st2, Raised(self.make_exc('TypeError', node=node))))
+                            else:
+                                nxt.append((st2, acc + [v.z]))
+                res = nxt
+            outs = []
+
+            def norm(i):
+                return z3.If(i < 0, z3.If(i + L > 0, i + L, 0), z3.If(i < L, i, L))
+            for st1, acc in res:
+                if isinstance(acc, Raised):
+                    outs.append((st1, acc))
+                    continue
+                lo = norm(acc[0]) if acc[0] is not None else z3.IntVal(0)
+                hi = norm(acc[1]) if acc[1] is not None else L
+                ln = z3.If(hi - lo > 0, hi - lo, 0)
+                outs.append((st1, V('bytes', py=None, extra={
+                    'len': ln, 'has_nul': self.fresh('nul', z3.BoolSort()),
+                    'slice_of': (obj, lo)})))
+            return outs
         if obj.k == 'obj' and self.contract.opts.get('opaque_algebra'):
             outs = []
             for part in (sl.lower, sl.upper):
